@@ -108,8 +108,30 @@ def per_diff_length(ctx, rule, a):
     b = c.built
     tcalls = [(blk, t) for blk, t in b.calls() if F.local_callee(c, t) is a.translator]
     applies = [blk for blk, t in b.calls(r"VectorDiff::<.*>::apply$")]
+    nested = None
     if not tcalls:
-        ctx.violated(rule, c, "translator-called-per-diff", c.loc(), "the per-diff closure of %s never calls the translator" % a.name)
+        # the translator may be called from a closure nested in the per-diff closure (e.g. count.map_or_else(.., |count| handle_diff(..)))
+        for nc in F.children.get(c.key, []):
+            if nc.built and any(F.local_callee(nc, t) is a.translator for _, t in nc.built.calls()):
+                nested = nc
+        if nested is None:
+            ctx.violated(rule, c, "translator-called-per-diff", c.loc(), "the per-diff closure of %s never calls the translator" % a.name)
+            return
+        nb = nested.built
+        for blk, t in nb.calls():
+            if F.local_callee(nested, t) is not a.translator:
+                continue
+            x = strip(nb.expr_of_op(t["args"][2]), through_calls=False)
+            # a captured variable: resolve it to the enclosing per-diff closure's local of that name
+            src = None
+            if x[0] == "field":
+                for i, l in enumerate(b.locals):
+                    if l["name"] == x[2]:
+                        src = strip(b.expr_of_local(i), through_calls=False)
+            if src is not None and src[0] == "call" and ecall_matches(src, r"::len$"):
+                ctx.holds(rule, c, "length-read-per-diff", nb.line_at((blk, 10 ** 6)), "prev_len is the per-diff closure's local `%s` = buffered_vector.len()" % x[2])
+            else:
+                ctx.undecided(rule, c, "length-read-per-diff", nb.line_at((blk, 10 ** 6)), "translator called from a nested closure; provenance of prev_len not resolved")
         return
     for blk, t in tcalls:
         e = b.expr_of_op(t["args"][2])  # prev_len
